@@ -320,8 +320,12 @@ func runC03(c *Ctx) {
 		c.Check(same, "O4", "SIBLING", "IsGangSatisfied / ShouldPipelineJob iterate the same pod-set registry", shouldPipe.Pos(), strings.Join(a, ","), fmt.Sprintf("the gang test and the pipeline test iterate different collections of pod sets (%v vs %v): nested pod sets can be missed by one of them", a, b))
 		paths := fx.retPaths(shouldPipe, 0, WantTrue)
 		for i, rp := range paths {
-			_, lt := hasFact(rp.Facts, func(f Fact) bool {
-				return f.Pol && f.T.Op == "bin" && f.T.Name == "<" && termHas(f.T.Args[1], func(x *Term) bool { return x.Op == "call" && x.Fn != nil && x.Fn.Name() == "GetMinAvailable" })
+			// (the per-pod-set test may live in a predicate helper: its accepting paths are expanded)
+			lt := fx.acceptWithExpansion(rp.Facts, func(fs FactSet) bool {
+				_, ok := hasFact(fs, func(f Fact) bool {
+					return f.Pol && f.T.Op == "bin" && f.T.Name == "<" && termHas(f.T.Args[1], func(x *Term) bool { return x.Op == "call" && x.Fn != nil && x.Fn.Name() == "GetMinAvailable" })
+				})
+				return ok
 			})
 			c.Check(lt, "O4", "RET", fmt.Sprintf("%s true path#%d", funcKey(shouldPipe), i), rp.Pos, "true ⇒ active-allocated count < minAvailable", "ShouldPipelineJob's positive answer is not tied to 'fewer really-allocated pods than minAvailable'")
 		}
